@@ -296,6 +296,83 @@ pub fn run(ctx: &Ctx) -> i32 {
                 Err(p) => ev.violate("lev-panic", format!("new_with_limit(72-char query, 3, 1000000) panicked: {}", p), J::Null),
             }
         }
+        // queries of EVERY length 1..=40 (and 47, 48, 63, 64, 65) at d = 1, 2, 3 (and d = 4..6 for lengths <= 21; at most 60000 states - larger constructions count as TooManyStates): a length
+        // combined with a distance may hit a packing / word-size coincidence that neither parameter hits alone. Probed with
+        // copies of the query edited 0..d+2 times, with the edits concentrated at the front, in the middle or at the end.
+        {
+            let base: Vec<char> = "abcdefghijklmnopqrstuvwxyz012345é78ABCDEFGHIJKLMNOPQRSTUVWXYZ☃!?+-=*/%<>".chars().collect();
+            let lens: Vec<usize> = (1..=40).chain([47usize, 48, 63, 64, 65].iter().cloned()).collect();
+            let mut combos: Vec<(usize, u32)> = vec![];
+            for &l in &lens {
+                for d in 1..=3u32 {
+                    if l > 48 && d > 1 {
+                        continue;
+                    }
+                    combos.push((l, d));
+                }
+                if l <= 21 {
+                    for d in 4..=6u32 {
+                        combos.push((l, d));
+                    }
+                }
+            }
+            for (ci, (l, d)) in combos.iter().enumerate() {
+                if ci % n != shard {
+                    continue;
+                }
+                let qc: Vec<char> = base[..(*l).min(base.len())].to_vec();
+                let q: String = qc.iter().collect();
+                match guard(|| Levenshtein::new_with_limit(&q, *d, 60_000)) {
+                    Ok(Ok(lev)) => {
+                        ev.count("length-x-distance-automata");
+                        let mut rng = Rng::new(ctx.seed, 0x17_1e + ci as u64);
+                        let mut bad = 0;
+                        for i in 0..90usize {
+                            let mut k = qc.clone();
+                            let nedits = i % (*d as usize + 3);
+                            let zone = i / 30; // 0 front, 1 middle, 2 end
+                            for _ in 0..nedits {
+                                let span = (k.len() / 3).max(1);
+                                let at = |rng: &mut Rng, len: usize| -> usize {
+                                    let lo = match zone {
+                                        0 => 0,
+                                        1 => len / 3,
+                                        _ => len.saturating_sub(span),
+                                    };
+                                    (lo + rng.usize(span)).min(len.saturating_sub(1))
+                                };
+                                match rng.below(3) {
+                                    0 if !k.is_empty() => {
+                                        let p = at(&mut rng, k.len());
+                                        k.remove(p);
+                                    }
+                                    1 => {
+                                        let p = at(&mut rng, k.len() + 1);
+                                        k.insert(p, *rng.pick(&['a', 'z', '#', 'é']));
+                                    }
+                                    _ if !k.is_empty() => {
+                                        let p = at(&mut rng, k.len());
+                                        k[p] = *rng.pick(&['a', 'z', '#', 'ê']);
+                                    }
+                                    _ => {}
+                                }
+                            }
+                            let k: String = k.into_iter().collect();
+                            let want = levref::distance(&q, &k) <= *d as usize;
+                            let got = run_lev(&lev, k.as_bytes());
+                            ev.eval(None);
+                            ev.distinct_extra += 1;
+                            if got != want && bad < 2 {
+                                bad += 1;
+                                ev.violate("lev-mismatch", format!("new_with_limit({:?} ({} characters), {}, 60000) {} {:?} but the edit distance is {}", q, l, d, if got { "accepts" } else { "rejects" }, k, levref::distance(&q, &k)), J::obj(vec![("query", J::s(q.clone())), ("distance", J::U(*d as u64)), ("key", J::s(k.clone()))]));
+                            }
+                        }
+                    }
+                    Ok(Err(_)) => ev.count("length-x-distance-automata:TooManyStates"),
+                    Err(p) => ev.violate("lev-panic", format!("new_with_limit({} characters, {}, 60000) panicked: {}", l, d, p), J::s(q.clone())),
+                }
+            }
+        }
         for (qi, q) in queries.iter().enumerate() {
             if qi % n != shard {
                 continue;
@@ -376,7 +453,7 @@ pub fn run(ctx: &Ctx) -> i32 {
             level: "exploration",
             rule: "one evaluation = one (query, distance, key) triple: is_match after feeding the key's UTF-8 bytes to Levenshtein::new(q,d) compared with (edit distance over scalar values <= d); ALL q in A^<=3 (585; thorough A^<=4 = 4681) x d in {0,1,2} x ALL k in A^<=4 (4681) for A = {a, é, ê, ☃, ☄, 😀, 😁, 𝄞} (1-4 byte encodings, pairs sharing 1, 2 and 3 leading bytes), the same exhaustively (q,k in A2^<=3) for A2 = {a, é, ©, ☃, U+1603, 😀, U+1D600, U+5F600} (pairs sharing their continuation bytes but differing in the lead or a middle byte), one automaton with more than 65536 states (72-character query, d=3, limit 10^6) probed with 600 edited copies of the query, plus Set::search over the set of all keys for every (q,d), random queries/keys up to 8 scalars over ASCII + Latin/Cyrillic/CJK/emoji/boundary code points with d<=3, long queries against the default state limit, and new_with_limit series (limit 1.. first success + 2: error payload == limit, monotone, behaviour equal to the default-limit automaton, no more than `limit` distinct reachable states, counted breadth-first through the public interface); non-trivial = every triple; distinct = by construction / fingerprint of (q,d)",
             assumptions: vec!["keys are valid UTF-8 (the statement's domain)".into()],
-            floors: vec![("triples:within-distance", 10_000), ("triples:beyond-distance", 10_000), ("triples:distinct-scalars-sharing-a-utf8-prefix", 10_000), ("set-searches", 1000), ("limit-probes:TooManyStates", 100), ("limit-probes:Ok", 30)],
+            floors: vec![("triples:within-distance", 10_000), ("triples:beyond-distance", 10_000), ("triples:distinct-scalars-sharing-a-utf8-prefix", 10_000), ("set-searches", 1000), ("limit-probes:TooManyStates", 100), ("limit-probes:Ok", 30), ("length-x-distance-automata", 150)],
             exhaustive: Some(true),
         },
     )
